@@ -273,10 +273,17 @@ func Run(r *fw.Run) {
 			return wm.InfoNP(&wm.NP{NS: ns, Name: name, PodSel: *wm.ML("app", "a"), Ingress: []wm.NPRule{{Ports: []wm.NPPort{{HasPort: true, Num: port}}}}})
 		}
 	}
+	npU := func(ns, name string, port int, uid string) func() *resource.Info {
+		return func() *resource.Info {
+			return wm.InfoNP(&wm.NP{NS: ns, Name: name, UID: uid, PodSel: *wm.ML("app", "a"), Ingress: []wm.NPRule{{Ports: []wm.NPPort{{HasPort: true, Num: port}}}}})
+		}
+	}
 	dups := []dup{
 		{name: "duplicate-anp-name", a: func() *resource.Info { return wm.InfoANP(anp("dup", 1)) }, b: func() *resource.Info { return wm.InfoANP(anp("dup", 2)) }, expect: []string{"dup", "AdminNetworkPolicy"}},
 		{name: "duplicate-netpol-name", a: npA("ns1", "dupnp", 80), b: npA("ns1", "dupnp", 81), expect: []string{"dupnp", "NetworkPolicy"}, noAdmin: true},
 		{name: "duplicate-netpol-name-default-ns", a: npA("", "dupnp", 80), b: npA("default", "dupnp", 81), expect: []string{"dupnp", "NetworkPolicy"}, noAdmin: true},
+		{name: "duplicate-netpol-name-same-uid", a: npU("ns1", "dupnp", 80, "uid-1"), b: npU("ns1", "dupnp", 81, "uid-1"), expect: []string{"dupnp", "NetworkPolicy"}, noAdmin: true},
+		{name: "duplicate-netpol-name-different-uid", a: npU("ns1", "dupnp", 80, "uid-1"), b: npU("ns1", "dupnp", 81, "uid-2"), expect: []string{"dupnp", "NetworkPolicy"}, noAdmin: true},
 		{name: "control-same-netpol-name-other-namespace", a: npA("ns1", "dupnp", 80), b: npA("ns2", "dupnp", 81), expect: nil, noAdmin: true},
 		{name: "two-banps", a: func() *resource.Info { return wm.InfoBANP(banp(), "default") }, b: func() *resource.Info { return wm.InfoBANP(banp(), "default") }, expect: []string{"baseline admin network policy"}},
 		{name: "banp-not-named-default", a: func() *resource.Info { return wm.InfoBANP(banp(), "baseline") }, expect: []string{"default"}, single: true},
